@@ -73,10 +73,10 @@ type Cons struct {
 
 // Inc is one incarnation of the stream name.
 type Inc struct {
-	Input  string     `json:"input"` // rtmp | cust | rtsp (ANNOUNCE / RECORD, interleaved)
+	Input  string     `json:"input"` // rtmp | cust | rtsp (ANNOUNCE / RECORD, interleaved) | pull (relay pull from a stub origin) | gb (GB28181, PS over RTP over TCP)
 	Codecs gen.Codecs `json:"codecs"`
 	Items  []gen.Item `json:"items"`
-	End    string     `json:"end"`  // close | kick | idle | dispose
+	End    string     `json:"end"`  // close | kick | idle | dispose | stop (pull: CtrlStopRelayPull)
 	// PushLate: the push targets accept the TCP connection but answer the RTMP handshake only after the input has
 	// ended (relay push still connecting when the input leaves); otherwise the push sessions are established first.
 	PushLate bool `json:"push_late,omitempty"`
@@ -94,6 +94,13 @@ type Case struct {
 	RecTs   bool   `json:"rec_ts"`
 	HttpTs  bool   `json:"http_ts"`
 	Rtsp    bool   `json:"rtsp"` // RTSP enabled: RTSP publishers and subscribers are generated
+	// DummyAudio: in_session.add_dummy_audio_enable (lal inserts silent AAC frames into streams without audio after
+	// DummyWaitMs of video)
+	DummyAudio  bool `json:"dummy_audio,omitempty"`
+	DummyWaitMs int  `json:"dummy_wait_ms,omitempty"`
+	// RtspTail: also demand that everything an RTSP input sent reaches the FLV recording (never generated: see
+	// findings/c16.md, known-finding candidate rtsp-input/tail-lost-at-end)
+	RtspTail bool `json:"rtsp_tail,omitempty"`
 	Push    int    `json:"push"` // number of relay push targets (stubs)
 	Hook    bool   `json:"hook"`
 	Incs    []Inc  `json:"incs"`
@@ -109,8 +116,11 @@ func genCodecs(t *rapid.T, inc int, input string) gen.Codecs {
 	var cd gen.Codecs
 	cd.Video = rapid.SampledFrom([]string{"avc", "avc", "avc", "hevc", "", ""}).Draw(t, "vcodec")
 	audio := []string{"aac", "aac", "aac", "aac", "g711a", "opus", "", ""}
-	if input == "rtsp" {
+	if input == "rtsp" || input == "gb" {
 		audio = []string{"aac", "aac", "aac", ""}
+	}
+	if input == "gb" && cd.Video == "" {
+		cd.Video = "avc"
 	}
 	cd.Audio = rapid.SampledFrom(audio).Draw(t, "acodec")
 	if cd.Video == "" && cd.Audio == "" {
@@ -287,6 +297,10 @@ func genCase(t *rapid.T) Case {
 	c.Rtsp = rapid.IntRange(0, 4).Draw(t, "rtsp") != 0
 	c.Push = rapid.SampledFrom([]int{0, 0, 1, 1, 2}).Draw(t, "push")
 	c.Hook = rapid.Bool().Draw(t, "hook")
+	if rapid.IntRange(0, 4).Draw(t, "dummyAudio") == 0 {
+		c.DummyAudio = true
+		c.DummyWaitMs = rapid.SampledFrom([]int{100, 150, 400}).Draw(t, "dummyWaitMs")
+	}
 	ninc := rapid.SampledFrom([]int{1, 2, 2, 2, 3}).Draw(t, "ninc")
 	v0 := rapid.IntRange(0, 2).Draw(t, "variant0")
 	for i := 0; i < ninc; i++ {
@@ -295,12 +309,19 @@ func genCase(t *rapid.T) Case {
 		if c.Rtsp {
 			inputs = []string{"rtmp", "rtmp", "cust", "rtsp", "rtsp"}
 		}
+		inputs = append(inputs, "gb")
+		if c.Hook && !c.DummyAudio {
+			inputs = append(inputs, "pull", "pull") // the harness synchronises a pull on the hook's message count
+		}
 		in.Input = rapid.SampledFrom(inputs).Draw(t, "input")
 		in.Codecs = genCodecs(t, i, in.Input)
 		in.Items, in.Tail = genItems(t, in.Codecs, i, (v0+i)%3, c.FragMs)
 		ends := []string{"close", "close", "kick", "idle"}
 		if in.Input == "cust" {
 			ends = []string{"close"}
+		}
+		if in.Input == "pull" {
+			ends = []string{"close", "stop", "kick", "idle"}
 		}
 		if i == ninc-1 {
 			ends = append(ends, "dispose")
@@ -309,7 +330,7 @@ func genCase(t *rapid.T) Case {
 			}
 		}
 		in.End = rapid.SampledFrom(ends).Draw(t, "end")
-		if in.Input != "cust" && c.Push > 0 {
+		if (in.Input == "rtmp" || in.Input == "rtsp") && c.Push > 0 {
 			in.PushLate = rapid.IntRange(0, 3).Draw(t, "pushLate") == 0
 		}
 		c.Incs = append(c.Incs, in)
@@ -331,7 +352,7 @@ func genCase(t *rapid.T) Case {
 		} else {
 			k.JoinAt = rapid.IntRange(0, len(c.Incs[k.Inc].Items)).Draw(t, "joinAt")
 		}
-		k.Stay = k.Kind != "ts" && k.Kind != "rtsp" && rapid.IntRange(0, 2).Draw(t, "stay") != 0
+		k.Stay = rapid.IntRange(0, 2).Draw(t, "stay") != 0
 		c.Cons = append(c.Cons, k)
 	}
 	return c
@@ -369,6 +390,36 @@ func pendingAudioAtEnd(in Inc) bool {
 	}
 	return pending
 }
+
+// dummyHolding models lal's dummy-audio filter: it holds metadata, video
+// sequence headers and video frames until the first audio message arrives or
+// the video timestamps span waitMs; true if it is still holding when the input
+// (of an RTMP-message kind) ends.
+func dummyHolding(in Inc, waitMs int) bool {
+	if remuxedKind(in.Input) {
+		return false
+	}
+	first := int64(-1)
+	held := false
+	for _, it := range in.Items {
+		switch it.Kind {
+		case "ash", "audio":
+			return false
+		case "meta", "vsh":
+			held = true
+		case "video":
+			held = true
+			if first < 0 {
+				first = int64(it.Ts)
+			} else if int64(it.Ts)-first >= int64(waitMs) {
+				return false
+			}
+		}
+	}
+	return held
+}
+
+func remuxedKind(k string) bool { return k == "rtsp" || k == "gb" }
 
 func mediaCount(in Inc) (video, audio int) {
 	for _, it := range in.Items {
@@ -475,6 +526,7 @@ func classify(c Case) (bool, []string) {
 	add(c.Hook, "hook")
 	add(c.HttpTs, "http-ts")
 	add(c.Rtsp, "rtsp")
+	add(c.DummyAudio, "dummy-audio")
 	if c.Merge > 0 {
 		labels = append(labels, "rtmp-merge-write")
 	}
@@ -485,7 +537,18 @@ func classify(c Case) (bool, []string) {
 		if c.Hls {
 			labels = append(labels, "hls-end:"+in.End+"/"+ic)
 		}
-		if c.Push > 0 && in.Input != "cust" {
+		if c.DummyAudio {
+			switch {
+			case dummyHolding(in, c.DummyWaitMs):
+				labels = append(labels, "dummy-audio:still-analysing-at-end")
+				nt = true
+			case in.Codecs.Audio == "":
+				labels = append(labels, "dummy-audio:inserted")
+			default:
+				labels = append(labels, "dummy-audio:pass-through")
+			}
+		}
+		if c.Push > 0 && (in.Input == "rtmp" || in.Input == "rtsp") {
 			if in.PushLate {
 				labels = append(labels, "push-end:"+in.End+"/handshake-in-flight")
 			} else {
@@ -534,7 +597,7 @@ func classify(c Case) (bool, []string) {
 			labels = append(labels, "join:inside-first-incarnation")
 		}
 		if k.Stay && k.Inc < len(c.Incs)-1 {
-			labels = append(labels, "cons:stays-across-end")
+			labels = append(labels, "cons:stays-across-end", "stays-across-end:"+k.Kind)
 		}
 	}
 	return nt, uniq(labels)
